@@ -60,6 +60,7 @@ type xobsJ struct {
 	BodyEqual bool           `json:"body_equal"`
 	Trailers  []g01rig.Field `json:"trailers,omitempty"`
 	Err       string         `json:"err,omitempty"`
+	body      []byte         // what the origin received (for the connection-stream cases; not serialised)
 }
 
 type xrec struct {
@@ -327,6 +328,7 @@ func (rg *e2eRig) runConn(c xconn) ([]xobsJ, []sentInfo) {
 			obs[i].Method, obs[i].Target, obs[i].Proto = r.Method, r.Target, r.Proto
 			obs[i].Fields, obs[i].Framing, obs[i].BodyLen = r.Fields, r.Framing, len(r.Body)
 			obs[i].BodyEqual = bytes.Equal(r.Body, sent[i].body)
+			obs[i].body = r.Body
 			obs[i].Trailers = r.Trailers
 		}
 	}
@@ -787,6 +789,91 @@ func xcorpus() []xconn {
 	}
 }
 
+// ---------------------------------------------------------------- connection streams (kcases)
+
+// genKconn: 1-4 requests with small bodies on one connection; every body framing and chunking, chunk sizes written in
+// lower / upper case with and without an extension (render), sequential or pipelined, all three configurations.
+func genKconn(r *rng.R, k int) xconn {
+	c := xconn{Kind: "stream", Mode: []string{"D", "D", "U", "M"}[r.Intn(4)]}
+	n := 1 + r.Intn(4)
+	for i := 0; i < n; i++ {
+		q := xreq{Method: r.Pick([]string{"POST", "PUT", "POST", "GET", "DELETE", "PATCH"}), Proto: "HTTP/1.1", Framing: "none", BodySeed: r.U64(),
+			Target: fmt.Sprintf("/stream-%d-%d", k, i), Fields: []g01rig.Field{{Name: "Host", Value: "{O}"}, {Name: r.Pick([]string{"X-A", "Accept", "Cookie"}), Value: r.Pick(e2eValues[:10])}}}
+		if c.Mode == "U" {
+			q.Target = "http://{O}" + q.Target
+		}
+		if q.Method != "GET" && q.Method != "DELETE" || r.Chance(1, 4) {
+			q.BodyLen = []int{0, 1, 2, 9, 10, 15, 16, 17, 31, 100, 255, 256, 257, 300}[r.Intn(14)]
+			if r.Chance(1, 2) {
+				q.Framing = "cl"
+			} else {
+				q.Framing = "chunked"
+				for rem := q.BodyLen; rem > 0; {
+					m := 1 + r.Intn(40)
+					if r.Chance(1, 4) {
+						m = []int{1, 9, 10, 15, 16, 17, 255, 256}[r.Intn(8)]
+					}
+					q.Chunks = append(q.Chunks, m)
+					rem -= m
+				}
+			}
+		}
+		c.Reqs = append(c.Reqs, q)
+	}
+	c.Pipelined = n > 1 && r.Chance(1, 2)
+	return c
+}
+
+// runStreams: the bytes the client wrote on each connection and the bodies the next hop received, in order.
+func (rg *e2eRig) runStreams(r *rng.R, n int) ([]string, []any, []string) {
+	var cases, errs []string
+	var recs []any
+	for k := 0; k < n; k++ {
+		c := genKconn(r, k)
+		obs, sent := rg.runConn(c)
+		if transportTrouble(obs) {
+			obs, sent = rg.runConn(c)
+		}
+		tag, origin := rg.tagD, rg.O.Addr()
+		switch c.Mode {
+		case "U":
+			tag = rg.tagU
+		case "M":
+			tag, origin = rg.tagM, rg.T.Addr()
+		}
+		var stream []byte
+		var got, want []string
+		for i, q := range c.Reqs {
+			raw, _, _, _ := rg.render(q, tag, origin)
+			stream = append(stream, raw...)
+			want = append(want, coqfmt.Str(string(sent[i].body)))
+			if obs[i].Err != "" || obs[i].Status != 200 || obs[i].Count != 1 {
+				errs = append(errs, fmt.Sprintf("stream %d #%d (%s): status %d, %d requests at the next hop, %s", k, i, c.Mode, obs[i].Status, obs[i].Count, obs[i].Err))
+				continue
+			}
+			got = append(got, coqfmt.Str(string(obs[i].body)))
+		}
+		cases = append(cases, fmt.Sprintf("{| k_stream := %s; k_bodies := %s; k_sent := %s |}", coqfmt.Str(string(stream)), coqfmt.List("list N", got), coqfmt.List("list N", want)))
+		var lens []int
+		for _, o := range obs {
+			lens = append(lens, o.BodyLen)
+		}
+		recs = append(recs, map[string]any{"kind": "stream", "conn": c, "index": 0, "_obs": map[string]any{"body_lengths_at_next_hop": lens}})
+	}
+	return cases, recs, errs
+}
+
+func writeShardK(dir string, idx int, cases []string) {
+	var sb strings.Builder
+	sb.WriteString("From G01 Require Import ViaCheck BodyStream.\nOpen Scope N_scope.\n")
+	fmt.Fprintf(&sb, "Definition cases : list kcase :=\n  %s.\n", coqfmt.List("kcase", cases))
+	sb.WriteString("Definition M := Eval vm_compute in (bad kcase_model_ok cases).\n")
+	sb.WriteString("Definition P := Eval vm_compute in (bad kcase_prop_ok cases).\n")
+	sb.WriteString("Definition D := Eval vm_compute in (@nil N).\n")
+	sb.WriteString("Print M.\nPrint P.\nPrint D.\n")
+	os.WriteFile(fmt.Sprintf("%s/kcases_%03d.v", dir, idx), []byte(sb.String()), 0o644)
+}
+
 // ---------------------------------------------------------------- driver
 
 func runE2E(r *rng.R, tier, out string, m *meta) {
@@ -939,6 +1026,14 @@ func runE2E(r *rng.R, tier, out string, m *meta) {
 			xj = append(xj, xrec{Conn: c, Index: i, Kind: "e2e", Obs: o})
 		}
 	}
+	// connection streams: the model's reader on the bytes really written vs the bodies really received
+	nK := 60
+	if tier == "thorough" {
+		nK = 1500
+	}
+	kc, kj, kerrs := rg.runStreams(r, nK)
+	m.E2EErrors = append(m.E2EErrors, kerrs...)
+	stats["connection_streams"] = len(kc)
 	// concurrent clients (after the sequential part so that origin request attribution above stays exact)
 	nW, perW := 8, 10
 	if tier == "thorough" {
@@ -972,6 +1067,13 @@ func runE2E(r *rng.R, tier, out string, m *meta) {
 		m.Shards = append(m.Shards, fmt.Sprintf("ycases_%03d.v", i))
 	}
 	writeJSONL(out, "ycases.jsonl", yj)
+	m.E2E["connection_streams"] = len(kc)
+	for i := 0; i*size < len(kc); i++ {
+		hi := min((i+1)*size, len(kc))
+		writeShardK(out, i, kc[i*size:hi])
+		m.Shards = append(m.Shards, fmt.Sprintf("kcases_%03d.v", i))
+	}
+	writeJSONL(out, "kcases.jsonl", kj)
 }
 
 // ---- independent reference for --credentials (documented precedence: exact host:port, then *:port, then host:*,
